@@ -198,4 +198,516 @@ theorem range_no_recursion (s : Store) : ∀ f,
 theorem rangeMap_no_recursion (s : Store) (f : Nat) (i : Nat) : rangeMap s f i ≠ .error .recursion :=
   map_ne_error ((range_no_recursion s f).1 _ _ _)
 
+/-! ## Part 3: fuel sufficiency (bounded recursion)
+
+  Two facts about the model as first written made the unconditional statements false:
+
+  * `canonicalKey` follows alias → alias chains with no cycle detection (as `canonicalMapKey` does in Go);
+    on a hand-built graph with an alias key node that is its own target it runs out of any fuel
+    (`aliasLoop_counterexample`).  yaml.v3 never builds such graphs: `Alias` always points at the
+    anchored node, and an alias node cannot carry an anchor.  This is the hypothesis `AliasFlat`.
+  * `decodePairs` consumes one unit of fuel per yielded pair and the yielded list of a mapping with
+    merges is not bounded by one content list; `bound` was enlarged accordingly in the model
+    (`oldBound_counterexample`).
+-/
+
+/-- yaml.v3 invariant: the target of an alias node is never an alias node. -/
+def AliasFlat (s : Store) : Prop :=
+  ∀ (i : Nat) (n : NodeRec) (t : Nat) (m : NodeRec),
+    s[i]? = some n → n.kind = .alias → n.aliasTo = some t → s[t]? = some m → m.kind ≠ .alias
+
+theorem canonicalKey_total (s : Store) (h : AliasFlat s) (f i : Nat) :
+    canonicalKey s (f + 2) i ≠ .error .fuel := by
+  rw [canonicalKey]
+  cases hs : s[i]? with
+  | none => simp
+  | some n =>
+    simp only []
+    cases hk : n.kind <;> simp only []
+    case scalar => split <;> simp
+    case alias =>
+      cases ha : n.aliasTo with
+      | none => simp
+      | some t =>
+        simp only []
+        rw [canonicalKey]
+        cases ht : s[t]? with
+        | none => simp
+        | some m =>
+          have := h i n t m hs hk ha ht
+          simp only []
+          cases hm : m.kind <;> simp only []
+          case scalar => split <;> simp
+          case alias => exact absurd hm this
+          all_goals simp
+    all_goals simp
+
+/-- Number of store nodes not yet in the set `m`. -/
+def rem (s : Store) (m : List Nat) : Nat := ((List.range s.length).filter (fun x => !m.contains x)).length
+
+theorem rem_nil (s : Store) : rem s [] = s.length := by
+  unfold rem
+  rw [List.filter_eq_self.mpr (by simp)]
+  simp
+
+theorem filter_length_mono {α : Type} (p q : α → Bool) (l : List α)
+    (hpq : ∀ x, p x = true → q x = true) : (l.filter p).length ≤ (l.filter q).length := by
+  induction l with
+  | nil => simp
+  | cons b r ih =>
+    simp only [List.filter_cons]
+    cases hpb : p b
+    · cases hqb : q b <;> simp <;> omega
+    · simp [hpq b hpb]; omega
+
+theorem rem_mono (s : Store) {m m' : List Nat} (h : ∀ x ∈ m, x ∈ m') : rem s m' ≤ rem s m := by
+  unfold rem
+  apply filter_length_mono
+  intro x hx
+  simp only [Bool.not_eq_true', List.contains_eq_mem, decide_eq_false_iff_not] at hx ⊢
+  exact fun hm => hx (h x hm)
+
+theorem filter_length_lt {α : Type} (p q : α → Bool) (l : List α) (a : α) (ha : a ∈ l)
+    (hpq : ∀ x, p x = true → q x = true) (hq : q a = true) (hp : p a = false) :
+    (l.filter p).length + 1 ≤ (l.filter q).length := by
+  induction l with
+  | nil => cases ha
+  | cons b r ih =>
+    rcases List.mem_cons.mp ha with rfl | ha'
+    · have : (r.filter p).length ≤ (r.filter q).length := filter_length_mono p q r hpq
+      simp only [List.filter_cons, hq, hp]
+      simp
+      omega
+    · have := ih ha'
+      simp only [List.filter_cons]
+      cases hpb : p b
+      · cases hqb : q b <;> simp <;> omega
+      · simp [hpq b hpb]; omega
+
+theorem rem_cons_lt (s : Store) {m : List Nat} {i : Nat} (hi : i < s.length) (hm : i ∉ m) :
+    rem s (i :: m) + 1 ≤ rem s m := by
+  unfold rem
+  apply filter_length_lt _ _ _ i (List.mem_range.mpr hi)
+  · intro x hx
+    simp only [Bool.not_eq_true', List.contains_eq_mem, decide_eq_false_iff_not, List.mem_cons, not_or] at hx ⊢
+    exact hx.2
+  · simpa using hm
+  · simp
+
+theorem lt_of_getElem? {s : Store} {i : Nat} {n : NodeRec} (h : s[i]? = some n) : i < s.length := by
+  rcases List.getElem?_eq_some_iff.mp h with ⟨hl, _⟩
+  exact hl
+
+theorem foldl_max_ge (l : List NodeRec) (init : Nat) :
+    init ≤ l.foldl (fun m n => max m n.content.length) init ∧
+    ∀ n ∈ l, n.content.length ≤ l.foldl (fun m n => max m n.content.length) init := by
+  induction l generalizing init with
+  | nil => simp
+  | cons a r ih =>
+    simp only [List.foldl_cons, List.mem_cons, forall_eq_or_imp]
+    obtain ⟨h1, h2⟩ := ih (max init a.content.length)
+    refine ⟨by omega, by omega, h2⟩
+
+theorem content_le {s : Store} {i : Nat} {n : NodeRec} (h : s[i]? = some n) :
+    n.content.length ≤ maxContent s :=
+  (foldl_max_ge s 0).2 n (List.mem_of_getElem? h)
+
+theorem pairsOf_length : ∀ (l : List Nat) (ps : List (Nat × Nat)), pairsOf l = some ps → 2 * ps.length = l.length
+  | [], ps, h => by simp [pairsOf] at h; subst h; rfl
+  | [_], ps, h => by simp [pairsOf] at h
+  | k :: v :: r, ps, h => by
+    simp only [pairsOf, Option.map_eq_some_iff] at h
+    obtain ⟨ps', hps', rfl⟩ := h
+    have := pairsOf_length r ps' hps'
+    simp only [List.length_cons]
+    omega
+
+/-- Output budget: every node still outside `merged` may contribute one content list of pairs. -/
+def pot (s : Store) (m : List Nat) : Nat := rem s m * maxContent s
+
+theorem pot_mono (s : Store) {m m' : List Nat} (h : ∀ x ∈ m, x ∈ m') : pot s m' ≤ pot s m :=
+  Nat.mul_le_mul_right _ (rem_mono s h)
+
+theorem pot_cons (s : Store) {m : List Nat} {i : Nat} (hi : i < s.length) (hm : i ∉ m) :
+    pot s (i :: m) + maxContent s ≤ pot s m := by
+  have := Nat.mul_le_mul_right (maxContent s) (rem_cons_lt s hi hm)
+  rw [Nat.add_mul, Nat.one_mul] at this
+  exact this
+
+/-- Fuel that suffices for `rangeImpl` when the `merged` set is `m`. -/
+def need (s : Store) (m : List Nat) : Nat := rem s m * (maxContent s + 2) + 1
+
+theorem need_pos (s : Store) (m : List Nat) : 1 ≤ need s m := by unfold need; omega
+
+theorem need_mono (s : Store) {m m' : List Nat} (h : ∀ x ∈ m, x ∈ m') : need s m' ≤ need s m := by
+  have := Nat.mul_le_mul_right (maxContent s + 2) (rem_mono s h)
+  unfold need; omega
+
+theorem need_cons (s : Store) {m : List Nat} {i : Nat} (hi : i < s.length) (hm : i ∉ m) :
+    need s (i :: m) + maxContent s + 2 ≤ need s m := by
+  have := Nat.mul_le_mul_right (maxContent s + 2) (rem_cons_lt s hi hm)
+  rw [Nat.add_mul, Nat.one_mul] at this
+  unfold need; omega
+
+/-- What a successful walk does to the state: `merged` only grows, and the number of yielded pairs is paid
+    for by the nodes that entered `merged`. -/
+theorem range_inv (s : Store) : ∀ f,
+    (∀ lv st o lv' st', rangeImpl s f lv st o = .ok (lv', st') →
+      (∀ x ∈ st.merged, x ∈ st'.merged) ∧ st'.out.length + pot s st'.merged ≤ st.out.length + pot s st.merged) ∧
+    (∀ cur outer st ps cur' outer' st', rangePairs s f cur outer st ps = .ok (cur', outer', st') →
+      (∀ x ∈ st.merged, x ∈ st'.merged) ∧
+      st'.out.length + pot s st'.merged ≤ st.out.length + pot s st.merged + ps.length) ∧
+    (∀ lv st l lv' st', rangeSeq s f lv st l = .ok (lv', st') →
+      (∀ x ∈ st.merged, x ∈ st'.merged) ∧ st'.out.length + pot s st'.merged ≤ st.out.length + pot s st.merged) := by
+  intro f
+  induction f with
+  | zero => simp [rangeImpl, rangePairs, rangeSeq]
+  | succ f ih =>
+    obtain ⟨ih1, ih2, ih3⟩ := ih
+    refine ⟨?_, ?_, ?_⟩
+    · intro lv st o lv' st' h
+      cases o with
+      | none =>
+        simp only [rangeImpl, Except.ok.injEq, Prod.mk.injEq] at h
+        obtain ⟨_, rfl⟩ := h
+        exact ⟨fun _ hx => hx, Nat.le_refl _⟩
+      | some i =>
+        simp only [rangeImpl] at h
+        split at h
+        · simp only [Except.ok.injEq, Prod.mk.injEq] at h
+          obtain ⟨_, rfl⟩ := h
+          exact ⟨fun _ hx => hx, Nat.le_refl _⟩
+        · next hc =>
+          have hc' : i ∉ st.merged := by simpa using hc
+          cases hs : s[i]? with
+          | none => simp [hs] at h
+          | some n =>
+            have hi := lt_of_getElem? hs
+            have hpc := pot_cons s hi hc'
+            have hcont := content_le hs
+            simp only [hs] at h
+            cases hk : n.kind <;> simp only [hk] at h <;> try (simp at h; done)
+            · -- sequence
+              obtain ⟨h1, h2⟩ := ih3 _ _ _ _ _ h
+              exact ⟨fun x hx => h1 x (List.mem_cons_of_mem _ hx), by simp only [] at h2; omega⟩
+            · -- mapping
+              cases hp : pairsOf n.content with
+              | none => simp [hp] at h
+              | some ps =>
+                have hlen := pairsOf_length _ _ hp
+                simp only [hp] at h
+                cases he : explicitKeys s f ps with
+                | error e => simp [he] at h
+                | ok ks =>
+                  simp only [he] at h
+                  cases hr : rangePairs s f ks lv { merged := i :: st.merged, out := st.out } ps with
+                  | error e => simp [hr] at h
+                  | ok r =>
+                    obtain ⟨c', o', st''⟩ := r
+                    simp only [hr, Except.ok.injEq, Prod.mk.injEq] at h
+                    obtain ⟨_, rfl⟩ := h
+                    obtain ⟨h1, h2⟩ := ih2 _ _ _ _ _ _ _ hr
+                    exact ⟨fun x hx => h1 x (List.mem_cons_of_mem _ hx), by simp only [] at h2; omega⟩
+            · -- alias
+              obtain ⟨h1, h2⟩ := ih1 _ _ _ _ _ h
+              exact ⟨fun x hx => h1 x (List.mem_cons_of_mem _ hx), by simp only [] at h2; omega⟩
+    · intro cur outer st ps cur' outer' st' h
+      rcases ps with _ | ⟨⟨k, v⟩, rest⟩
+      · simp only [rangePairs, Except.ok.injEq, Prod.mk.injEq] at h
+        obtain ⟨_, _, rfl⟩ := h
+        exact ⟨fun _ hx => hx, by simp⟩
+      · simp only [rangePairs] at h
+        cases hs : s[k]? with
+        | none => simp [hs] at h
+        | some kn =>
+          simp only [hs] at h
+          split at h
+          · cases hr : rangeImpl s f (cur :: outer) st (some v) with
+            | error e => simp [hr] at h
+            | ok r =>
+              obtain ⟨lv1, st1⟩ := r
+              obtain ⟨a1, a2⟩ := ih1 _ _ _ _ _ hr
+              simp only [hr] at h
+              cases lv1 with
+              | nil =>
+                obtain ⟨b1, b2⟩ := ih2 _ _ _ _ _ _ _ h
+                exact ⟨fun x hx => b1 x (a1 x hx), by simp only [List.length_cons]; omega⟩
+              | cons c1 o1 =>
+                obtain ⟨b1, b2⟩ := ih2 _ _ _ _ _ _ _ h
+                exact ⟨fun x hx => b1 x (a1 x hx), by simp only [List.length_cons]; omega⟩
+          · cases hck : canonicalKey s (f + 1) k with
+            | error e => simp [hck] at h
+            | ok ck =>
+              simp only [hck] at h
+              split at h
+              · obtain ⟨b1, b2⟩ := ih2 _ _ _ _ _ _ _ h
+                exact ⟨b1, by simp only [List.length_cons]; omega⟩
+              · obtain ⟨b1, b2⟩ := ih2 _ _ _ _ _ _ _ h
+                refine ⟨b1, ?_⟩
+                simp only [List.length_append, List.length_cons, List.length_nil] at b2 ⊢
+                omega
+    · intro lv st l lv' st' h
+      rcases l with _ | ⟨e, rest⟩
+      · simp only [rangeSeq, Except.ok.injEq, Prod.mk.injEq] at h
+        obtain ⟨_, rfl⟩ := h
+        exact ⟨fun _ hx => hx, Nat.le_refl _⟩
+      · simp only [rangeSeq] at h
+        cases hr : rangeImpl s f lv st (some e) with
+        | error err => simp [hr] at h
+        | ok r =>
+          obtain ⟨lv1, st1⟩ := r
+          obtain ⟨a1, a2⟩ := ih1 _ _ _ _ _ hr
+          simp only [hr] at h
+          obtain ⟨b1, b2⟩ := ih3 _ _ _ _ _ h
+          exact ⟨fun x hx => b1 x (a1 x hx), by omega⟩
+
+theorem range_total (s : Store) (hflat : AliasFlat s) : ∀ f,
+    (∀ lv st o, need s st.merged ≤ f → rangeImpl s f lv st o ≠ .error .fuel) ∧
+    (∀ cur outer st ps, ps.length + 1 + need s st.merged ≤ f → rangePairs s f cur outer st ps ≠ .error .fuel) ∧
+    (∀ lv st l, l.length + 1 + need s st.merged ≤ f → rangeSeq s f lv st l ≠ .error .fuel) ∧
+    (∀ ps, ps.length + 1 ≤ f → explicitKeys s f ps ≠ .error .fuel) := by
+  intro f
+  induction f with
+  | zero =>
+    refine ⟨?_, ?_, ?_, ?_⟩
+    · intro lv st o h; have := need_pos s st.merged; omega
+    · intro cur outer st ps h; omega
+    · intro lv st l h; omega
+    · intro ps h; omega
+  | succ f ih =>
+    obtain ⟨ih1, ih2, ih3, ih4⟩ := ih
+    refine ⟨?_, ?_, ?_, ?_⟩
+    · intro lv st o hf
+      cases o with
+      | none => simp [rangeImpl]
+      | some i =>
+        simp only [rangeImpl]
+        split
+        · simp
+        · next hc =>
+          have hc' : i ∉ st.merged := by simpa using hc
+          cases hs : s[i]? with
+          | none => simp
+          | some n =>
+            have hi := lt_of_getElem? hs
+            have hnc := need_cons s hi hc'
+            have hcont := content_le hs
+            simp only []
+            cases hk : n.kind <;> simp only []
+            case sequence =>
+              exact ih3 _ _ _ (by simp only []; omega)
+            case mapping =>
+              cases hp : pairsOf n.content with
+              | none => simp
+              | some ps =>
+                have hlen := pairsOf_length _ _ hp
+                simp only []
+                cases he : explicitKeys s f ps with
+                | error e =>
+                  simp only []
+                  intro h; cases h
+                  exact ih4 ps (by omega) he
+                | ok ks =>
+                  simp only []
+                  cases hr : rangePairs s f ks lv { merged := i :: st.merged, out := st.out } ps with
+                  | error e =>
+                    simp only []
+                    intro h; cases h
+                    exact ih2 _ _ _ _ (by simp only []; omega) hr
+                  | ok r => simp
+            case alias =>
+              exact ih1 _ _ _ (by simp only []; omega)
+            all_goals simp
+    · intro cur outer st ps hf
+      rcases ps with _ | ⟨⟨k, v⟩, rest⟩
+      · simp [rangePairs]
+      · simp only [List.length_cons] at hf
+        have hpos := need_pos s st.merged
+        simp only [rangePairs]
+        cases hs : s[k]? with
+        | none => simp
+        | some kn =>
+          simp only []
+          split
+          · cases hr : rangeImpl s f (cur :: outer) st (some v) with
+            | error e =>
+              simp only []
+              intro h; cases h
+              exact ih1 _ _ _ (by omega) hr
+            | ok r =>
+              obtain ⟨lv1, st1⟩ := r
+              have hm := need_mono s ((range_inv s f).1 _ _ _ _ _ hr).1
+              cases lv1 with
+              | nil => exact ih2 _ _ _ _ (by omega)
+              | cons c1 o1 => exact ih2 _ _ _ _ (by omega)
+          · obtain ⟨f', rfl⟩ : ∃ f', f = f' + 1 := ⟨f - 1, by omega⟩
+            cases hck : canonicalKey s (f' + 1 + 1) k with
+            | error e =>
+              simp only []
+              intro h; cases h
+              exact canonicalKey_total s hflat f' k hck
+            | ok ck =>
+              simp only []
+              split
+              · exact ih2 _ _ _ _ (by omega)
+              · exact ih2 _ _ _ _ (by simp only []; omega)
+    · intro lv st l hf
+      rcases l with _ | ⟨e, rest⟩
+      · simp [rangeSeq]
+      · simp only [List.length_cons] at hf
+        simp only [rangeSeq]
+        cases hr : rangeImpl s f lv st (some e) with
+        | error err =>
+          simp only []
+          intro h; cases h
+          exact ih1 _ _ _ (by omega) hr
+        | ok r =>
+          obtain ⟨lv1, st1⟩ := r
+          have hm := need_mono s ((range_inv s f).1 _ _ _ _ _ hr).1
+          exact ih3 _ _ _ (by omega)
+    · intro ps hf
+      rcases ps with _ | ⟨⟨k, v⟩, rest⟩
+      · simp [explicitKeys]
+      · simp only [List.length_cons] at hf
+        simp only [explicitKeys]
+        cases hs : s[k]? with
+        | none => simp
+        | some kn =>
+          simp only []
+          split
+          · exact ih4 _ (by omega)
+          · obtain ⟨f', rfl⟩ : ∃ f', f = f' + 1 := ⟨f - 1, by omega⟩
+            cases hck : canonicalKey s (f' + 1 + 1) k with
+            | error e =>
+              simp only []
+              intro h; cases h
+              exact canonicalKey_total s hflat f' k hck
+            | ok ck => exact map_ne_error (ih4 _ (by omega))
+
+theorem need_le_bound (s : Store) : need s [] ≤ bound s := by
+  unfold need bound maxList
+  rw [rem_nil]
+  have h1 : s.length * (maxContent s + 2) ≤ s.length * ((s.length + 1) * maxContent s + 3) := by
+    apply Nat.mul_le_mul_left
+    have : maxContent s ≤ (s.length + 1) * maxContent s := Nat.le_mul_of_pos_left _ (by omega)
+    omega
+  rw [Nat.add_mul (s.length) 2]
+  omega
+
+theorem rangeMap_total (s : Store) (i : Nat) (h : AliasFlat s) : rangeMap s (bound s) i ≠ .error .fuel :=
+  map_ne_error ((range_total s h (bound s)).1 _ _ _ (need_le_bound s))
+
+/-- The pairs one `rangeMap` yields: at most one content list per store node. -/
+theorem rangeMap_length (s : Store) (f i : Nat) (ps : List (String × Nat)) (h : rangeMap s f i = .ok ps) :
+    ps.length ≤ s.length * maxContent s := by
+  unfold rangeMap at h
+  cases hr : rangeImpl s f [] { merged := [], out := [] } (some i) with
+  | error e => simp [hr, Except.map] at h
+  | ok r =>
+    obtain ⟨lv, st⟩ := r
+    simp only [hr, Except.map, Except.ok.injEq] at h
+    subst h
+    have := ((range_inv s f).1 _ _ _ _ _ hr).2
+    simp only [List.length_nil, Nat.zero_add] at this
+    have h0 : pot s [] = s.length * maxContent s := by unfold pot; rw [rem_nil]
+    omega
+
+/-- Fuel that suffices for `decode` when the `seen` set is `m`. -/
+def dneed (s : Store) (m : List Nat) : Nat := rem s m * (maxList s + 2) + 1
+
+theorem dneed_cons (s : Store) {m : List Nat} {i : Nat} (hi : i < s.length) (hm : i ∉ m) :
+    dneed s (i :: m) + maxList s + 2 ≤ dneed s m := by
+  have := Nat.mul_le_mul_right (maxList s + 2) (rem_cons_lt s hi hm)
+  rw [Nat.add_mul, Nat.one_mul] at this
+  unfold dneed; omega
+
+theorem maxContent_le_maxList (s : Store) : maxContent s ≤ maxList s :=
+  Nat.le_mul_of_pos_left _ (by omega)
+
+theorem len_mul_le_maxList (s : Store) : s.length * maxContent s ≤ maxList s :=
+  Nat.mul_le_mul_right _ (by omega)
+
+theorem decode_total_aux (s : Store) (hflat : AliasFlat s) : ∀ f,
+    (∀ seen o, dneed s seen ≤ f → decode s f seen o ≠ .error .fuel) ∧
+    (∀ seen l, l.length + 1 + dneed s seen ≤ f → decodeList s f seen l ≠ .error .fuel) ∧
+    (∀ seen ps acc, ps.length + 1 + dneed s seen ≤ f → decodePairs s f seen ps acc ≠ .error .fuel) := by
+  intro f
+  induction f with
+  | zero =>
+    refine ⟨?_, ?_, ?_⟩
+    · intro seen o h; unfold dneed at h; omega
+    · intro seen l h; omega
+    · intro seen ps acc h; omega
+  | succ f ih =>
+    obtain ⟨ih1, ih2, ih3⟩ := ih
+    refine ⟨?_, ?_, ?_⟩
+    · intro seen o hf
+      cases o with
+      | none => simp [decode]
+      | some i =>
+        simp only [decode]
+        split
+        · simp
+        · next hc =>
+          have hc' : i ∉ seen := by simpa using hc
+          cases hs : s[i]? with
+          | none => simp
+          | some n =>
+            have hi := lt_of_getElem? hs
+            have hnc := dneed_cons s hi hc'
+            have hcont := content_le hs
+            have hml := maxContent_le_maxList s
+            simp only []
+            cases hk : n.kind <;> simp only []
+            case scalar => split <;> simp
+            case sequence => exact map_ne_error (ih2 _ _ (by omega))
+            case mapping =>
+              cases hr : rangeMap s (bound s) i with
+              | error e =>
+                simp only []
+                intro h; cases h
+                exact rangeMap_total s i hflat hr
+              | ok ps =>
+                have := rangeMap_length s _ _ _ hr
+                have := len_mul_le_maxList s
+                exact map_ne_error (ih3 _ _ _ (by omega))
+            case alias => exact ih1 _ _ (by omega)
+            case document =>
+              split
+              · simp
+              · exact ih1 _ _ (by omega)
+              · simp
+            case other => simp
+    · intro seen l hf
+      rcases l with _ | ⟨c, rest⟩
+      · simp [decodeList]
+      · simp only [List.length_cons] at hf
+        simp only [decodeList]
+        cases hr : decode s f seen (some c) with
+        | error e =>
+          simp only []
+          intro h; cases h
+          exact ih1 _ _ (by omega) hr
+        | ok v => exact map_ne_error (ih2 _ _ (by omega))
+    · intro seen ps acc hf
+      rcases ps with _ | ⟨⟨k, v⟩, rest⟩
+      · simp [decodePairs]
+      · simp only [List.length_cons] at hf
+        simp only [decodePairs]
+        cases hr : decode s f seen (some v) with
+        | error e =>
+          simp only []
+          intro h; cases h
+          exact ih1 _ _ (by omega) hr
+        | ok x => exact ih3 _ _ _ (by omega)
+
+theorem dneed_le_bound (s : Store) : dneed s [] ≤ bound s := by
+  unfold dneed bound
+  rw [rem_nil, Nat.add_mul (s.length) 2]
+  have h1 : s.length * (maxList s + 2) ≤ s.length * (maxList s + 3) := Nat.mul_le_mul_left _ (by omega)
+  omega
+
+theorem decode_total (s : Store) (root : Nat) (h : AliasFlat s) : decodeYAML s root ≠ .error .fuel :=
+  (decode_total_aux s h (bound s)).1 _ _ (dneed_le_bound s)
+
 end GoPipeline.Yaml
